@@ -3,12 +3,14 @@ package main
 func init() {
 	mut("C18", "revert-recursive-rlock", "trafficshape/conn.go", "\t\treturn nextActionFromIndex(actions, int64(ind))\n", "\t\treturn c.GetNextActionFromIndex(int64(ind))\n", "C18.R4", "GetNextActionFromByte")
 	mut("C18", "revert-bucket-close", "trafficshape/conn.go", "\tfor _, b := range c.LocalBuckets {\n\t\tb.ReadBucket.Close()\n\t\tb.WriteBucket.Close()\n\t}\n", "", "C18.R7", "Conn).Close")
-	mut("C18", "swap-before-parse", "trafficshape/handler.go", "\tif err := parseShapes(receivedConfig.Trafficshape); err != nil {\n\t\thttp.Error(rw, err.Error(), 400)\n\t\treturn\n\t}\n\n\th.l.Shapes.Lock()\n", "\th.l.ReadBucket.SetCapacity(defaults.Bandwidth.Down)\n\tif err := parseShapes(receivedConfig.Trafficshape); err != nil {\n\t\thttp.Error(rw, err.Error(), 400)\n\t\treturn\n\t}\n\n\th.l.Shapes.Lock()\n", "C18.R1", "parseShapes")
+	mut("C18", "swap-before-parse", "trafficshape/handler.go", "\t// Parse and verify the received shapes.\n\tif err := parseShapes(", "\th.l.ReadBucket.SetCapacity(defaults.Bandwidth.Down)\n\t// Parse and verify the received shapes.\n\tif err := parseShapes(", "C18.R1", "")
 	mut("C18", "negative-latency-accepted", "trafficshape/handler.go", "if defaults.Bandwidth.Up < 0 || defaults.Bandwidth.Down < 0 || defaults.Latency < 0 {", "if defaults.Bandwidth.Up < 0 || defaults.Bandwidth.Down < 0 {", "C18.R2", "Default.Latency")
 	mut("C18", "halt-duration-unchecked", "trafficshape/utils.go", "\t\t\tif value.Duration < 0 || value.Byte < 0 {", "\t\t\tif value.Byte < 0 {", "C18.R2", "Halt.Duration")
 	mut("C18", "regex-error-ignored", "trafficshape/utils.go", "\t\t\treturn fmt.Errorf(\"url_regex for shape at index doesn't compile: %d\", shapeIndex)\n", "\t\t\t_ = shapeIndex\n", "C18.R2", "regexp.Compile")
 	mut("C18", "unlock-missing-in-halt-arm", "trafficshape/conn.go", "\t\t\t\t\tc.Shapes.M[c.Context.URLRegex].Unlock()\n\t\t\t\t\tc.Shapes.RUnlock()\n\t\t\t\t\ttime.Sleep(time.Duration(d) * time.Millisecond)", "\t\t\t\t\tc.Shapes.M[c.Context.URLRegex].Unlock()\n\t\t\t\t\ttime.Sleep(time.Duration(d) * time.Millisecond)", "C18.R3", "time.Sleep")
 	mut("C18", "context-not-reset", "proxy.go", "\t\tptsconn.Context = &trafficshape.Context{}\n", "", "C18.R5", "")
 	mut("C18", "close-action-keeps-writing", "trafficshape/conn.go", "\t\t\t\t\treturn int(total), &ErrForceClose{message: \"Forcing close connection\"}\n", "\t\t\t\t\tc.conn.Write(b)\n\t\t\t\t\treturn int(total), &ErrForceClose{message: \"Forcing close connection\"}\n", "C18.R6", "")
-	mut("C18", "swap-outside-lock", "trafficshape/handler.go", "\th.l.Shapes.LastModifiedTime = time.Now()\n\th.l.Shapes.Unlock()\n", "\th.l.Shapes.Unlock()\n\th.l.Shapes.LastModifiedTime = time.Now()\n", "C18.R1", "write lock")
+	mut("C18", "swap-outside-lock", "trafficshape/handler.go", "\th.l.Shapes.Lock()\n\n\th.l.Shapes.LastModifiedTime = time.Now()\n", "\th.l.Shapes.LastModifiedTime = time.Now()\n\th.l.Shapes.Lock()\n\n", "C18.R1", "")
+	mut("C18", "inner-max-shadowed", "trafficshape/conn.go", "\t\t\t\tmax = min(rem, max)\n", "\t\t\t\tmax := min(rem, max)\n", "C18.R8", "advanced")
+	twin("C18", "advance-by-reported-count", "trafficshape/conn.go", "\t\ttotal += n\n\n\t\tb = b[max:]\n", "\t\ttotal += n\n\n\t\tb = b[n:]\n")
 }
